@@ -1181,6 +1181,22 @@ fn gen_spec(c: &mut Case, rng: &mut Rng) -> String {
 impl Area for A {
     fn gen(&self, rng: &mut Rng, n: usize, out: &mut dyn Write) {
         let mut base = None;
+        // corpus authoring: C03_SCRIPT=<file with one spec per line> writes that history (summaries from the real engine)
+        if let Ok(path) = std::env::var("C03_SCRIPT") {
+            let text = std::fs::read_to_string(path).unwrap();
+            let mut c = Case::new(&mut base);
+            writeln!(out, "reset").unwrap();
+            for l in c.snapshot_lines() {
+                writeln!(out, "{}", l).unwrap();
+            }
+            writeln!(out, "begin").unwrap();
+            for spec in text.lines().filter(|l| !l.trim().is_empty() && !l.starts_with('#')) {
+                let t: Vec<&str> = spec.split(' ').collect();
+                let Some(o) = c.exec(&t) else { continue };
+                writeln!(out, "tx {} ; {}{}{} ; {}", spec, o.class, if o.ops.is_empty() { "" } else { " " }, o.ops.join(" "), o.fin).unwrap();
+            }
+            return;
+        }
         for _ in 0..n {
             let mut c = Case::new(&mut base);
             writeln!(out, "reset").unwrap();
@@ -1205,7 +1221,7 @@ impl Area for A {
             }
             // malformed lines
             if rng.chance(1, 3) {
-                writeln!(out, "{}", rng.pick(&["tx", "tx xfer 0 1", "tx xfer 0 9 1 5 ; S ; fin:0:0:0:0:0", "vault x", "frobnicate", "tx epoch ; S w:1 ; fin:a"])).unwrap();
+                writeln!(out, "{}", rng.pick(&["tx", "tx xfer 0 1", "vault x", "frobnicate", "tx epoch ; S w:1 ; fin:a"])).unwrap();
             }
         }
     }
